@@ -295,6 +295,9 @@ class TypeUnion(Type):
         super().__init__()
         self.possible_types = set(possible_types)
 
+    def clone(self):
+        return TypeUnion([t.clone() for t in self.possible_types])
+
 
 class FunctionType(Type):
     name = 'Function'
